@@ -503,7 +503,9 @@ func (g *G) cdxTreeDoc(v int, inClass bool) M {
 	if !inClass && g.Chance(0.3) {
 		name = "docname"
 	}
-	meta := M{"id": g.Pick([]string{"urn:uuid:3e671687-395b-41f5-a30f-a58921a69b79", "urn:uuid:1"}), "version": g.Pick([]string{"1", "7", "42", "0"}),
+	// serial numbers: canonical, and the spellings other tools write (upper case, no urn prefix, braces)
+	meta := M{"id": g.Pick([]string{"urn:uuid:3e671687-395b-41f5-a30f-a58921a69b79", "urn:uuid:1", "urn:uuid:3E671687-395B-41F5-A30F-A58921A69B79",
+		"3e671687-395b-41f5-a30f-a58921a69b79", "{3e671687-395b-41f5-a30f-a58921a69b79}", "urn:uuid:3e671687-395b-41f5-a30f-a58921a69b79"}), "version": g.Pick([]string{"1", "7", "42", "0"}),
 		"name": name, "comment": "", "tools": []any{}, "authors": []any{}, "types": types}
 	if !inClass && g.Chance(0.2) {
 		meta["version"] = g.Pick([]string{"", "x", "-3"})
@@ -1050,6 +1052,25 @@ func oracleCdx(op M, res any, exec func(M) any) []Finding {
 					}
 					if purl(a) != purl(b) {
 						add("C03", "package URL of node %q changes across CycloneDX: %q vs %q", id, purl(a), purl(b))
+					}
+					// CycloneDX has one cpe member: the 2.3 name when there is one, else the 2.2 name
+					cpe := func(n M) string {
+						c22, c23 := "", ""
+						for _, p := range asList(attrOf(n, "Identifiers")) {
+							switch asInt(p.([]any)[0]) {
+							case 2:
+								c22 = asStr(p.([]any)[1])
+							case 3:
+								c23 = asStr(p.([]any)[1])
+							}
+						}
+						if c23 != "" {
+							return c23
+						}
+						return c22
+					}
+					if strings.HasPrefix(cpe(a), "cpe:") && cpe(a) != cpe(b) {
+						add("C03", "CPE of node %q changes across CycloneDX: %q vs %q", id, cpe(a), cpe(b))
 					}
 				}
 			}
